@@ -339,14 +339,14 @@ def _run(ctx, work):
     n_fixed = len(jobs)
     # generated hosts: the same catalogue at sites of valid generated programs
     ghosts = []
-    for i in range(ctx.pick(10, 150)):
+    for i in range(ctx.pick(10, 60)):
         lines, sites, text = gen_host(ctx.seed * 100000 + 50000 + i)
         if sites:
             ghosts.append((lines, sites, text))
     extra = []
     for hi, (lines, sites, text) in enumerate(ghosts):
         rng.shuffle(sites)
-        for si, s in enumerate(sites[:ctx.pick(4, 12)]):
+        for si, s in enumerate(sites[:ctx.pick(4, 8)]):
             extra.append({'name': 'g%d_%d' % (hi, si), 'routine': s['routine'], 'blocks': s['blocks'], 'ce': s['ce'], 'ci': s['ci'], 'cs': s['cs'], '_host': hi, '_site': s})
     names = sorted(FAULTS)
     gobs = []
